@@ -2,6 +2,7 @@
 the atomic label sequences recorded from core/parsigdb (real MemDB, scripted deadliner, real
 ParSignedData values) in the model coq/Stores/ParSigDB.v, plus the trace monitor on every observed
 history."""
+import concurrent.futures
 import json
 import os
 import re
@@ -12,15 +13,19 @@ import vp
 def cases_v(hs):
     rows = []
     for h in hs:
-        rows.append("(%d, %d, [%s])" % (h["id"], h["t"], "; ".join(h["labels"])))
+        obs = "; ".join({1: "Some true", 0: "Some false"}.get(v, "None") for v in h.get("verdicts") or [])
+        rows.append("(%d, %d, [%s], [%s])" % (h["id"], h["t"], "; ".join(h["labels"]), obs))
     return """From Coq Require Import List Arith Bool.
 From Charon Require Import Stores.ParSigDB.
 Import ListNotations.
-Definition cases : list (nat * nat * list label) := [
+Definition cases0 : list (nat * nat * list label * list (option bool)) := [
 %s
 ].
+Definition cases : list (nat * nat * list label) := Eval vm_compute in map fst cases0.
 Definition cid (c : nat * nat * list label) := fst (fst c).
 Definition cth (c : nat * nat * list label) := snd (fst c).
+Definition verdict_bad := Eval vm_compute in
+  flat_map (fun c => match verdict_mismatch (cth (fst c)) init (snd (fst c)) (snd c) 0 with Some i => [(cid (fst c), i)] | None => [] end) cases0.
 Definition rejects := Eval vm_compute in
   flat_map (fun c => match first_reject (cth c) false false init (snd c) 0 with Some i => [(cid c, i)] | None => [] end) cases.
 Definition monitor_hits := Eval vm_compute in
@@ -30,6 +35,7 @@ Definition status_bad := Eval vm_compute in
 Definition evicting := Eval vm_compute in
   flat_map (fun c => if no_evict (cth c) (snd c) then [] else [(cid c, 0)]) cases.
 Print rejects.
+Print verdict_bad.
 Print monitor_hits.
 Print status_bad.
 Print evicting.
@@ -37,7 +43,9 @@ Print evicting.
 
 
 def pairs(term):
-    return [(int(a), int(b)) for a, b in re.findall(r"\((\d+)%?n?a?t?, (\d+)%?n?a?t?\)", term or "")]
+    # Coq breaks long lists anywhere, also inside a pair: drop all white space first
+    flat = re.sub(r"\s+", "", term or "")
+    return [(int(a), int(b)) for a, b in re.findall(r"\((\d+)(?:%nat)?,(\d+)(?:%nat)?\)", flat)]
 
 
 def duplicate_delivery(h):
@@ -131,7 +139,20 @@ def main():
                 errs[o.get("err", "ENone")] += 1
                 deliveries += len(o.get("out") or {})
         internal += sum(1 for l in h["labels"] if l.startswith("ABegin") and " true " in l)
-    R.coverage["input_distribution"] = {"kinds": kinds, "labels_total": nlabels, "labels": lab_kinds, "calls_by_duty_type": types,
+    overlapping = 0
+    for h in hs:
+        if h["kind"] != "conc":
+            continue
+        open_calls, seen_overlap = set(), False
+        for o in h["obs"]:
+            if o["l"] == "begin":
+                open_calls.add(o["c"])
+            elif o["l"] == "end":
+                open_calls.discard(o["c"])
+            elif o["l"] == "entry" and len(open_calls) > 1:
+                seen_overlap = True
+        overlapping += seen_overlap
+    R.coverage["input_distribution"] = {"kinds": kinds, "concurrent_histories_with_entries_processed_while_several_calls_were_open": overlapping, "labels_total": nlabels, "labels": lab_kinds, "calls_by_duty_type": types,
                                         "calls_by_deadliner_status": stat, "returned_errors": errs, "internal_calls": internal,
                                         "threshold_deliveries": deliveries, "entries_with_failing_subcommittee_index": ebad,
                                         "histories_with_concurrent_callers": kinds.get("conc", 0)}
@@ -142,12 +163,15 @@ def main():
             R.broke("correspondence:harness anomaly in history %d (%s): %s" % (h["id"], h["kind"], "; ".join(h["flags"][:3])),
                     json.dumps(replay_obj(h)))
     n_evicting = n_status_bad = 0
-    for shard_i, shard in enumerate(vp.chunks(hs, 1000)):
-        rc, out = vp.coq_eval("C07_%d" % shard_i, cases_v(shard))
+    shards = list(vp.chunks(hs, 125))
+    with concurrent.futures.ThreadPoolExecutor(max_workers=min(12, max(1, (os.cpu_count() or 4) - 2))) as ex:
+        results = list(ex.map(lambda a: vp.coq_eval("C07_%d" % a[0], cases_v(a[1])), enumerate(shards)))
+    for shard, (rc, out) in zip(shards, results):
         if rc != 0:
             R.broke("correspondence:cases_C07 does not compile", out[-3000:])
             continue
         rej = pairs(vp.parse_marked(out, "rejects"))
+        vbad = pairs(vp.parse_marked(out, "verdict_bad"))
         hits = pairs(vp.parse_marked(out, "monitor_hits"))
         sbad = {c for c, _ in pairs(vp.parse_marked(out, "status_bad"))}
         evi = {c for c, _ in pairs(vp.parse_marked(out, "evicting"))}
@@ -173,6 +197,13 @@ def main():
                 R.violation(key, "the threshold subscribers were called twice for the same (duty, validator, root) %s without a trim in between (label %d)" % (dd[1], dd[0]),
                             replay_obj(h, dd[0]))
                 reported.add(h["id"])
+        for cid, idx in vbad:
+            if cid in reported:
+                continue
+            h = byid[cid]
+            R.broke("correspondence:store verdict (appended vs. same-share comparison) observed in trace %d (%s) at label %d (%s) differs from the model" % (cid, h["kind"], idx, h["labels"][idx] if idx < len(h["labels"]) else "?"),
+                    json.dumps(replay_obj(h, idx)))
+            reported.add(cid)
         for cid, idx in rej:
             if cid in reported:
                 continue
